@@ -165,6 +165,7 @@ class cpr {
               )
         {
             auto K_ptr = std::make_shared<build_matrix>(K);
+            backend::sort_rows(*K_ptr);
             // Update global preconditioner
             S = std::make_shared<SPrecond>(K_ptr, prm.sprecond, bprm);
             if(update_transfer_ops){
